@@ -9,6 +9,19 @@ CHECKS = {
          "The real Has/String functions are executed on every Op with the low 16 bits and every defined probe set, renderings are parsed back and compared with a reference table; exhaustive on that domain, sampled on bits 16..31.",
          "Reference table of token names written from the documentation; bits 16..31 sampled.", "§4 C16"),
 }
+TWIN_NOTE = "Trusted base: the Linux kernel delivers the same notifications in the same order to a second inotify instance watching the same inodes; the reference translator (harness/twin/shadow.go) is an independent statement of the documented semantics. Explores PRNG-chosen histories, not all of them."
+CHECKS.update({
+ "C01": ("E-twin", "exploration", "runtime monitor: kernel ground-truth shadow + reference translator + sentinel barrier; forced queue overflow; race detector/checkptr build of the same workload",
+         "Differential monitoring of the real Watcher against the kernel's own notification log over thousands of PRNG syscall programs with consumer pauses (multi-event reads up to 64 KiB) and a real overflow; a missing expected event at a barrier is a violation.", TWIN_NOTE, "§2.1, §4 C01"),
+ "C02": ("E-twin", "exploration", "runtime monitor: kernel ground-truth shadow + reference translator; direct predicates on every received value; directed post-Remove and unmount histories",
+         "Every received event must be explained by a kernel notification of a currently watched path; directed histories probe changes made after Remove returned, previously watched subdirectories, parent+file deletes and a real tmpfs unmount.", TWIN_NOTE, "§4 C02"),
+ "C03": ("E-twin", "exploration", "runtime monitor: order of the received stream vs the kernel's total order, across buffer sizes and consumer paces",
+         "A sequential driver yields a total kernel order; the received stream is aligned with it (LCS over runs) and any event found at another position, or a Create with an old name not directly preceded by its Rename, is a violation.", TWIN_NOTE, "§4 C03"),
+ "C10": ("E-twin+E-fault", "fault_enumeration", "runtime monitor on the Errors channel over benign histories with a lagging reader; real kernel queue overflows as injected fault",
+         "Benign histories (random and the directed watch-invalidated-before-processed family at several reader lags) must leave Errors empty; provoked overflows of 1.1x-8x the queue limit must announce ErrEventOverflow and leave the Watcher fully usable.", TWIN_NOTE + " Overflow sizes are a fixed list, not all sizes.", "§4 C10"),
+ "C20": ("E-enum", "exploration", "runtime oracle: parse the produced diff, apply it, compare; independent backtracking matcher for DiffMatch; exhaustive small domain + PRNG",
+         "All 132 496 pairs of line sequences of length <=5 over three letters plus PRNG long pairs through the real ztest.Diff with a patch-applying oracle; generated placeholder templates through the real DiffMatch against an independent matcher.", "The oracle's parser of the diff format and the reference matcher are trusted; DiffMatch cases straddling a UTC date change are discarded.", "§4 C20"),
+})
 PENDING = {}
 ids = [json.loads(l)["id"] for l in open(f"{V}/properties.jsonl")]
 hooks = subprocess.run(["git", "-C", "/repo", "log", "--format=%H %s"], capture_output=True, text=True).stdout.splitlines()
